@@ -7,7 +7,7 @@ A call is a tuple; see harness/src/ext_wapi.rs for the token format.
   ("PC", guid, proto) proto = [(name, type)], name = short token or ("u", ns, name), type = token string
   ("PT", [value tokens]) ("PFIN",) ("PDROP",) ("PSET", field, arg-token)
   ("IMG", guid) ("ISET", field, arg-token) ("IVIS", fmt, data, w, h, mask|None)
-  ("IPIN"|"ISPH"|"ICYL", fmt, data, props-token, mask|None) ("IFIN",) ("IDROP",) ("FIN",)
+  ("IPIN"|"ISPH"|"ICYL", fmt, data, props-token, mask|None) ("IFIN",) ("IDROP",) ("FIN",) ("FINX",) (= finalize_customized_xml(Ok))
 Strings are Python str (UTF-8 encoded into hex tokens)."""
 import os, struct
 from fractions import Fraction
@@ -314,7 +314,7 @@ def interpret(calls, results):
         k = c[0]
         if r == "-":
             continue
-        if k == "FIN":
+        if k in ("FIN", "FINX"):      # FINX = finalize_customized_xml with the identity transformer
             if ok:
                 if out["fin_count"]:
                     out["accepted_unrepresentable"].append((i, "finalize was accepted a second time"))
@@ -450,7 +450,8 @@ def split_out(line):
 def model_line(calls, xmls):
     toks, k = [], 0
     for c in calls:
-        if c[0] == "FIN":
+        if c[0] in ("FIN", "FINX"):
+            # finalize() IS finalize_customized_xml(Ok) in the crate: the model's Finalize stands for both entry points
             toks.append("FIN:" + (xmls[k] if k < len(xmls) else ""))
             k += 1
         else:
